@@ -30,6 +30,11 @@ STRENGTH = {
  "C03-e": "children that panic in `poll` (`PanicOnce`): the unwinding goes through the crate and is caught by the caller",
  "C05-e": "count-based promptness for zero-sized children (completed <= drops observed at poll return)",
  "C06-e": "join_all/try_join_all with 60-123 inputs finishing in one poll, dropped at every point",
+ "C08-e": "`push_front`/`extend` in the C08 alphabets of the ordered queues (later in all alphabets of ordered kinds)",
+ "C11-e": "merge sources that wake themselves in the poll in which they yield an item (`J` steps); hang verdicts are universal",
+ "C13-e": "free-form histories with slot reuse and stale wakes under the Starve epilogue",
+ "C17-e": "iterators that are exact for the first 4/5 and filtered afterwards; collections collected from 50 futures",
+ "C14-e": "(in-process hang watchdog, as for C12-b)",
 }
 for d in sorted(glob.glob("/verif/seeded/C*")):
     mp = os.path.join(d, "meta.json")
